@@ -352,6 +352,9 @@ def r_own(ck: Checker) -> None:
                         cands.append((node, t, "attribute store"))
             elif isinstance(node, ast.AugAssign) and isinstance(node.target, (ast.Subscript, ast.Attribute)):
                 cands.append((node, node.target.value if isinstance(node.target, ast.Subscript) else node.target, "augmented store"))
+            elif isinstance(node, ast.AugAssign) and isinstance(node.target, ast.Name) and isinstance(node.op, (ast.Add, ast.Mult)):
+                # `v = node.condition; v += more` extends the list v names, in place
+                cands.append((node, ast.copy_location(ast.Name(node.target.id, ast.Load()), node.target), "`+=` on a name"))
             elif isinstance(node, ast.Delete):
                 for t in node.targets:
                     if isinstance(t, ast.Subscript):
